@@ -168,6 +168,8 @@ def statements(lang):
             "comment": ["# comment ( {"],
             "trailing": ["x = 3  # trailing } comment"],
             "blank": [""],
+            "ffcomment": ["# page \x0c break \u2028 in a comment"],
+            "ffstring": ["s2 = 'a\x0cb\u2028c'"],
             "pass": ["pass"],
         }
     js = lang in ("JavaScript", "TypeScript")
@@ -195,6 +197,8 @@ def statements(lang):
         "trailing": ["x = 3; // trailing } comment"],
         "trailingblock": ["x = 4; /* trailing { */"],
         "blank": [""],
+        "ffcomment": ["// page \x0c break \u2028 in a comment"],
+        "ffstring": ["s2 = \"a\x0cb\u2028c\";"],
     }
     if lang == "C":
         t["arrayinit"] = ["int arr[] = { 1, 2, 3 };"]
@@ -259,6 +263,8 @@ def global_lines(lang):
 
 
 def comment_lines(lang, v):
+    if v == "ff":
+        return ["\x0c"]  # a form-feed "page break": whitespace for every lexer, a line boundary only for str.splitlines()
     if lang == "Python":
         return ["# top-level comment {"]
     if v == "block":
@@ -319,7 +325,7 @@ def render_stmt(out: Out, lang, stmt, depth, parent):
     for text in table[k]:
         ln = out.emit(depth, text)
         code = _strip_trailing_comment(k, out.lines[-1])
-        if k in ("comment", "blockcomment", "mblockcomment", "blank"):
+        if k in ("comment", "blockcomment", "mblockcomment", "blank", "ffcomment"):
             continue
         if code.strip():
             end = (ln, len(code) + 1)
